@@ -110,8 +110,8 @@ def run_instance(inst, tier):
     names = [t[0] for t in tops]
     N = inst["N"]
     prev = None
-    for pl, variant in [(pl, v) for pl in inst["placements"] for v in (None, "reversed-insertion", "string-labels")]:
-        if variant and len(pl) > (4 if variant == "reversed-insertion" else 2):
+    for pl, variant in [(pl, v) for pl in inst["placements"] for v in (None, "reversed-insertion", "string-labels", "large-int-labels")]:
+        if variant and len(pl) > (4 if variant == "reversed-insertion" else (3 if variant == "large-int-labels" else 2)):
             continue
         net, jds, rows = netgen.build_network(N, tops, pl, relabel=variant)
         want_ejks, want_keys = expected(N, tops, jds, rows)
